@@ -82,7 +82,7 @@ def kitchen_sink(rng, gated: set, idx: int) -> dict:
         # docstring type expressions as people write them (every style; the configured style decides which are read)
         for style in rng.sample(["numpydoc", "google", "rest"], 2):
             counter += 1
-            parts.append(sn.doc_type_function(style, f"dt{counter}", [sn.doc_type(rng) for _ in range(5)]))
+            parts.append(sn.doc_type_function(style, f"dt{counter}", [sn.doc_type(rng, gated) for _ in range(5)]))
         files["src/" + "/".join(home) + f"/{name}.py"] = "".join(parts)
         mods.append((home, name, exported))
     # a test directory and a docs directory (only analysed with -tr)
